@@ -90,3 +90,37 @@ iter_idx_list_visits = Contract(
 canonicalise = iter_idx_list_visits
 CALLEES_CANO = {"_push_cano": push_cano}
 FINGERPRINT_CANO = {"for#0": "for idx in idx_list"}
+
+# ------------------------------------------------------------------------------------------------ compress: which limit applies to which bond (C04)
+# Mechanical slice of the sweep loop of MatrixProduct.compress: the statement `if temp_m_trunc is None: ... else: ...` that selects the
+# truncation for the bond cut at site idx.  The SVD of site idx with system "L" (to_right) keeps (left bond, sigma) as rows, so the bond
+# that is truncated is the *right* bond of the site, bond idx + 1 in the bond_dims convention; with system "R" it is the left bond, idx.
+# (That convention is svd_qn's and is assumed; C18 checks svd_qn itself.)  The property's lossless clause quantifies "a bond limit at least
+# as large as its Schmidt rank" per bond, so the limit used must be the entry of that very bond.
+def compress_limit_stmt(body):
+    for i, st in enumerate(body):
+        import ast as _ast
+        if isinstance(st, _ast.If) and _ast.unparse(st.test) == "temp_m_trunc is None":
+            return i
+    raise ValueError("no `if temp_m_trunc is None` statement in the sweep loop of compress")
+
+
+SLICE_COMPRESS = dict(name="compress__limit_of_cut_bond", body_of_loop=0,
+                      params={"temp_m_trunc": "temp_m_trunc", "idx": "idx", "self.to_right": "to_right", "len(sigma)": "nsigma",
+                              "self.compress_config.compute_m_trunc(sigma, idx, self.to_right)": "cfg_m"})
+# _Subst works bottom-up, so `self.to_right` inside the call above has already become `to_right` when the call is matched
+SLICE_COMPRESS["params"]["self.compress_config.compute_m_trunc(sigma, idx, to_right)"] = "cfg_m"
+compress_limit_list = Contract(
+    "compress__limit_of_cut_bond[list]", {"temp_m_trunc": "list[int]", "idx": "int", "to_right": "bool", "nsigma": "int", "cfg_m": "int"},
+    requires=["nsigma >= 0", "0 <= idx", "idx + 1 < len(temp_m_trunc)"],
+    ensures=[("limit_of_the_bond_being_cut", "result == min(temp_m_trunc[idx + 1 if to_right else idx], nsigma)"),
+             ("never_more_than_available", "result <= nsigma")],
+    bounds="prove")
+compress_limit_int = Contract(
+    "compress__limit_of_cut_bond[int]", {"temp_m_trunc": "int", "idx": "int", "to_right": "bool", "nsigma": "int", "cfg_m": "int"},
+    requires=["nsigma >= 0", "0 <= idx"],
+    ensures=[("uniform_limit", "result == min(temp_m_trunc, nsigma)")], bounds="prove")
+compress_limit_none = Contract(
+    "compress__limit_of_cut_bond[None]", {"temp_m_trunc": "opt[int]", "idx": "int", "to_right": "bool", "nsigma": "int", "cfg_m": "int"},
+    requires=["temp_m_trunc is None", "nsigma >= 0", "0 <= idx"],
+    ensures=[("configured_limit", "result == cfg_m")], bounds="prove")
